@@ -11,6 +11,7 @@ import (
 	"sort"
 	"sync"
 	"sync/atomic"
+	"time"
 
 	"github.com/codenotary/immudb/embedded/appendable"
 
@@ -66,7 +67,7 @@ func runTV(out string, seed int64, dir string, runs, ops int, corrupt bool, res 
 		app, err := s.open(s.path, false)
 		vh.Must(err, "open")
 		evs := tvRun(app, c, ops, rnd[64:])
-		app.Close()
+		vh.Guard(120*time.Second, func() { app.Close() })
 		os.RemoveAll(s.path)
 		res.Traces++
 		vh.Must(enc.Encode(tvEvent{E: "reset", Cfg: c.Name}), "encode")
@@ -117,6 +118,14 @@ func tvRun(app appendable.Appendable, c *cfg, ops int, rnd []byte) []tvEvent {
 		go func(g int) {
 			defer wg.Done()
 			var evs []tvEvent
+			defer func() {
+				if x := recover(); x != nil { // a panic of the real code is an observation TLC cannot explain
+					evs = append(evs, tvEvent{Seq: tick(), E: "rerr", ID: -1, Err: fmt.Sprintf("panic: %v", x)})
+					mu.Lock()
+					all = append(all, evs...)
+					mu.Unlock()
+				}
+			}()
 			seen := int64(-1)
 			burst := 0
 			k := g * 7
@@ -172,7 +181,7 @@ func tvRun(app appendable.Appendable, c *cfg, ops int, rnd []byte) []tvEvent {
 	var wevs []tvEvent
 	buffered := 0
 	atom := 0
-	for i := 0; i < ops; i++ {
+	writerOp := func(i int) {
 		atomic.AddInt64(&epoch, 1)
 		x := int(rnd[(i*2)%len(rnd)]) % 10
 		switch {
@@ -218,6 +227,17 @@ func tvRun(app appendable.Appendable, c *cfg, ops int, rnd []byte) []tvEvent {
 			buffered = 0
 		}
 	}
+	writer := func() {
+		defer func() {
+			if x := recover(); x != nil {
+				wevs = append(wevs, tvEvent{Seq: tick(), E: "werr", Err: fmt.Sprintf("panic: %v", x)})
+			}
+		}()
+		for i := 0; i < ops; i++ {
+			writerOp(i)
+		}
+	}
+	writer()
 	atomic.StoreInt32(&done, 1)
 	wg.Wait()
 	all = append(all, wevs...)
